@@ -395,6 +395,121 @@ theorem closeConn_comm (up : Bool) (a b : Option Err) (st : Stats) :
               cases up <;> simp <;> (repeat' split) <;> simp_all
 
 
+/-! ### no loss up to the point of failure -/
+
+def Ev.isRead : Ev → Bool
+  | .read _ _ => true
+  | _ => false
+
+@[simp] theorem Ev.isRead_read (n : Nat) (e : Bool) : Ev.isRead (.read n e) = true := rfl
+@[simp] theorem Ev.isRead_write (o n : Nat) (e : Bool) : Ev.isRead (.write o n e) = false := rfl
+@[simp] theorem Ev.isRead_dl (a b c : Bool) : Ev.isRead (.dl a b c) = false := rfl
+
+/-- number of `Read` calls made -/
+def nReads (t : List Ev) : Nat := (t.filter Ev.isRead).length
+
+/-- **Lower bound on what is delivered, for every script.**  With `n` the number of reads performed:
+if no write failed, *everything* those `n` reads returned was delivered (this includes the directions
+ended by a read error, by EOF and by a failing `SetDeadline`); if a write failed or fell short, it was
+the write of the `n`-th read's bytes, everything the first `n-1` reads returned was delivered and so was
+a prefix of the `n`-th read's bytes. -/
+def Lower (rs : List ReadRes) (r : Res) : Prop :=
+  (r.writeErr = none → r.delivered = allBytes (rs.take (nReads r.trace))) ∧
+  (∀ e, r.writeErr = some e → ∃ k b part, nReads r.trace = k + 1 ∧ rs[k]? = some b ∧ part <+: b.bytes ∧
+      r.delivered = allBytes (rs.take k) ++ part)
+
+@[simp] theorem prepend_writeErr (evs chunk n) (r : Res) : (r.prepend evs chunk n).writeErr = r.writeErr := rfl
+
+theorem nReads_append (a b : List Ev) : nReads (a ++ b) = nReads a + nReads b := by
+  simp [nReads, List.filter_append]
+
+theorem Lower_stop (rs : List ReadRes) (r : Res) (hw : r.writeErr = none) (hd : r.delivered = [])
+    (hn : nReads r.trace = 0) : Lower rs r := by
+  refine ⟨fun _ => ?_, fun e he => ?_⟩
+  · rw [hd, hn]; rfl
+  · rw [hw] at he; cases he
+
+theorem Lower_prepend_quiet (rs : List ReadRes) (x : Res) (evs : List Ev) (hn : nReads evs = 0)
+    (h : Lower rs x) : Lower rs (x.prepend evs [] 0) := by
+  refine ⟨fun hw => ?_, fun e he => ?_⟩
+  · simp only [prepend_writeErr] at hw
+    simp only [prepend_delivered, prepend_trace, nReads_append, hn, Nat.zero_add, List.nil_append]
+    exact h.1 hw
+  · simp only [prepend_writeErr] at he
+    obtain ⟨k, b, part, h1, h2, h3, h4⟩ := h.2 e he
+    exact ⟨k, b, part, by simp [nReads_append, hn, h1], h2, h3, by simpa using h4⟩
+
+theorem Lower_prepend_read (r0 : ReadRes) (rs : List ReadRes) (x : Res) (evs : List Ev) (n : Nat)
+    (hn : nReads evs = 1) (h : Lower rs x) : Lower (r0 :: rs) (x.prepend evs r0.bytes n) := by
+  refine ⟨fun hw => ?_, fun e he => ?_⟩
+  · simp only [prepend_writeErr] at hw
+    simp only [prepend_delivered, prepend_trace, nReads_append, hn]
+    rw [h.1 hw, Nat.add_comm, List.take_succ_cons, allBytes_cons]
+  · simp only [prepend_writeErr] at he
+    obtain ⟨k, b, part, h1, h2, h3, h4⟩ := h.2 e he
+    refine ⟨k + 1, b, part, ?_, ?_, h3, ?_⟩
+    · simp only [prepend_trace, nReads_append, hn, h1]; omega
+    · simpa using h2
+    · simp only [prepend_delivered, h4, List.take_succ_cons, allBytes_cons, List.append_assoc]
+
+theorem armBoth_nReads (ds : List DlRes) : nReads (armBoth ds).1 = 0 := by
+  rcases armBoth_cases ds with ⟨f, d', h⟩ | ⟨f1, f2, d', h⟩ | ⟨f1, f2, d', h⟩ <;> simp [h, nReads, Ev.isRead]
+
+theorem afterWrite_Lower (rs : List ReadRes) (er : Option Err) (ds : List DlRes) (k : List DlRes → Res)
+    (hk : ∀ ds', Lower rs (k ds')) : Lower rs (afterWrite er ds k) := by
+  unfold afterWrite
+  cases er with
+  | some e => exact Lower_stop rs _ rfl rfl rfl
+  | none =>
+    have hn := armBoth_nReads ds
+    rcases armBoth_cases ds with ⟨f, d', h⟩ | ⟨f1, f2, d', h⟩ | ⟨f1, f2, d', h⟩ <;> simp only [h] at hn ⊢
+    · exact Lower_stop rs _ rfl rfl hn
+    · exact Lower_stop rs _ rfl rfl hn
+    · exact Lower_prepend_quiet rs _ _ hn (hk d')
+
+theorem loop_Lower (rs : List ReadRes) : ∀ ws ds, conforming rs → Lower rs (loop rs ws ds) := by
+  induction rs with
+  | nil =>
+    intro ws ds _
+    refine ⟨fun _ => ?_, fun e he => ?_⟩
+    · simp [loop]
+    · simp [loop] at he
+  | cons r rs ih =>
+    intro ws ds hc
+    have hcr : conforming rs := fun x hx => hc x (by simp [hx])
+    simp only [loop]
+    split
+    · split
+      · -- the write of this read's bytes failed
+        rename_i e he
+        refine ⟨fun hw => by simp at hw, fun e' _ => ?_⟩
+        obtain ⟨o, n, hev⟩ := writeStep_ev r.bytes ws
+        exact ⟨0, r, (writeStep r.bytes ws).chunk, by simp only [nReads, hev]; rfl, rfl,
+          writeStep_chunk_prefix _ _, by simp⟩
+      · rename_i hnone
+        obtain ⟨o, n, hev⟩ := writeStep_ev r.bytes ws
+        have hn : nReads [Ev.read r.bytes.length r.err.isSome, (writeStep r.bytes ws).ev] = 1 := by
+          simp only [nReads, hev]; rfl
+        have := Lower_prepend_read r rs _ _ (writeStep r.bytes ws).nw hn
+          (afterWrite_Lower rs r.err ds _ (fun d' => ih (writeStep r.bytes ws).ws d' hcr))
+        rwa [writeStep_ok_chunk _ _ hnone]
+    · rename_i hz
+      have hb : r.bytes = [] := by
+        cases hb : r.bytes with
+        | nil => rfl
+        | cons a t => simp [hb] at hz
+      have hn : nReads [Ev.read r.bytes.length r.err.isSome] = 1 := rfl
+      have := Lower_prepend_read r rs _ _ 0 hn (afterWrite_Lower rs r.err ds _ (fun d' => ih ws d' hcr))
+      rwa [hb] at this ⊢
+
+theorem run_Lower (s : Script) (hc : conforming s.reads) : Lower s.reads (run s) := by
+  unfold run
+  have hn := armBoth_nReads s.dls
+  rcases armBoth_cases s.dls with ⟨f, d', h⟩ | ⟨f1, f2, d', h⟩ | ⟨f1, f2, d', h⟩ <;> simp only [h] at hn ⊢
+  · exact Lower_stop _ _ rfl rfl hn
+  · exact Lower_stop _ _ rfl rfl hn
+  · exact Lower_prepend_quiet _ _ _ hn (loop_Lower _ _ _ hc)
+
 /-! ### the statement list and its defer stack -/
 
 def Stmt.isDefer : Stmt → Bool
@@ -508,15 +623,15 @@ theorem exec_canonical (s : Script) :
   unfold canonical run armBoth
   simp only [exec]
   cases h1 : (arm true s.dls).2.1
-  · simp [Run.prepend, Res.prepend, h1, arm]
+  · simp [Run.prepend, Res.prepend, arm]
   · cases h2 : (arm false (arm true s.dls).2.2).2.1
-    · simp [Run.prepend, Res.prepend, h1, h2, arm]
-    · simp only [h1, h2, Bool.not_true, Bool.false_eq_true, if_false, if_true]
+    · simp [Run.prepend, Res.prepend, arm]
+    · simp only [Bool.not_true, Bool.false_eq_true, if_false, if_true]
       split
       · rename_i c hc
         simp [Run.prepend, Res.prepend, hc]
       · rename_i hc
-        simp [Run.prepend, Res.prepend, hc, exec]
+        simp [Run.prepend, Res.prepend, hc]
 
 theorem canonical_defersFirst : defersFirst canonical = true := by decide
 
